@@ -148,11 +148,17 @@ def untilClose : List Req → List Req
   | [] => []
   | r :: t => if specClose r then [r] else r :: untilClose t
 
+/-- every trailer field, in wire order, fills the first announced name of that spelling that has no value yet
+(so a name announced twice takes the first two fields of that name); announced names without a field stay empty,
+fields that were not announced are dropped -/
+def fillDecl (disableNorm : Bool) : List (Bytes × Option Bytes) → Bytes × Bytes → List (Bytes × Option Bytes)
+  | [], _ => []
+  | (d, v) :: t, kv =>
+    if v.isNone && (if disableNorm then kv.1 == d else lowerAll kv.1 == lowerAll d) then (d, some kv.2) :: t
+    else (d, v) :: fillDecl disableNorm t kv
+
 def expectedTrailers (disableNorm : Bool) (s : SeenTok) (r : Req) : List (Bytes × Bytes) :=
-  s.trailerNames.map (fun d =>
-    (d, match r.trailers.find? (fun kv => if disableNorm then kv.1 == d else lowerAll kv.1 == lowerAll d) with
-        | some kv => kv.2
-        | none => []))
+  (r.trailers.foldl (fillDecl disableNorm) (s.trailerNames.map (fun d => (d, none)))).map (fun dv => (dv.1, dv.2.getD []))
 
 def matchReq (dn : Bool) (s : SeenTok) (r : Req) : Bool :=
   s.method == r.method && s.uri == r.target && s.body == r.body &&
